@@ -78,7 +78,7 @@ RULE = ('a case is (start state, failing call): start states = every repository 
         'calls = every batch (ordered selection without repetition of valid filler productions x '
         'position k of the invalid production x rejection reason x the 4 batch APIs, from start '
         'states up to the depth given per API) and every single operation of _single_cases() '
-        '(158 calls rejected for a documented reason, each with its own set-up); the call is made '
+        '(176 calls rejected for a documented reason, each with its own set-up); the call is made '
         'on a pickled clone of the live FakedWBEMConnection; a case is non-trivial iff the call '
         'raised (only then the oracle has something to compare)')
 ASSUMPTIONS = [
@@ -106,6 +106,7 @@ DEFNS = 'root/cimv2'
 NSB = 'root/b'
 INTEROP = 'interop'
 NOPE = 'root/nope'
+NSC = 'root/c'      # third namespace: associations spanning three namespaces (single cases only)
 
 _COMMON = {
     'namespaces': [DEFNS, NSB, INTEROP],
@@ -541,6 +542,19 @@ def apply_step(r, step):
         inst = assoc_inst(DEFNS, NSB)
         inst.path = assoc_path(DEFNS, NSB, ns)
         r.add_cimobjects(inst, ns)
+    elif kind == 'lone3':
+        # association a -> na, b -> nb; one copy stored (add_cimobjects) in namespace `store` only;
+        # the schema exists in all three namespaces
+        store, na, nb = step[1], step[2], step[3]
+        for ns in (DEFNS, NSB, NSC):
+            if not has_ns(r.conn, ns):
+                r.add_namespace(ns)
+            ensure_schema(r, ns)
+        ensure_ends(r, na, nb)
+        if store is not None:
+            inst = assoc_inst(na, nb)
+            inst.path = assoc_path(na, nb, store)
+            r.add_cimobjects(inst, store)
     elif kind == 'open':
         ensure_inst(r, step[1], 'TST_A')
         r.open_paths('TST_A', step[1])
@@ -583,6 +597,11 @@ def step_enabled(conn, step):
         return not has_inst(conn, step[1], p) and not has_inst(conn, step[2], p)
     if kind == 'lone':
         return not has_inst(conn, step[1], assoc_path(DEFNS, NSB))
+    if kind == 'lone3':
+        store, na, nb = step[1], step[2], step[3]
+        where = [store] if store is not None else [DEFNS, NSB, NSC]
+        return not any(has_ns(conn, ns) and has_inst(conn, ns, assoc_path(na, nb)) for ns in where) \
+            or not all(has_ns(conn, ns) and has_class(conn, ns, 'TST_AB') for ns in (DEFNS, NSB, NSC))
     if kind == 'open':
         return not conn._mainprovider.enumeration_contexts
     if kind == 'nsprovider':
@@ -1270,6 +1289,18 @@ def _single_cases():
                 '  # instance already stored in %r only' % (created_in, ns),
                 lambda c, created_in=created_in: c.CreateInstance(assoc_inst(DEFNS, NSB), namespace=created_in),
                 [['lone', ns]], '@%s/stored-in-%s' % (created_in, ns))
+    # associations spanning three namespaces: created in `req` with references into the two others;
+    # a copy with the same path already exists in exactly one of the three namespaces
+    import itertools as _it
+    for req, na, nb in _it.permutations((DEFNS, NSB, NSC)):
+        for store in (req, na, nb):
+            add('CreateInstance', 'multins3-exists-in-one-ns',
+                'conn.CreateInstance(TST_AB(a -> %s:TST_A.id=1, b -> %s:TST_B.id=1), %r)'
+                '  # instance already stored in %r only' % (na, nb, req, store),
+                lambda c, req=req, na=na, nb=nb: c.CreateInstance(assoc_inst(na, nb), namespace=req),
+                [['lone3', store, na, nb]],
+                '@%s/a-in-%s/b-in-%s/stored-in-%s' % (req, na, nb, 'request-ns' if store == req else
+                                                         'a-ns' if store == na else 'b-ns'))
     # ---- pywbem_mock.CIMNamespaceProvider (namespaces are managed through CIM_Namespace instances)
     P = [['nsprovider']]
 
